@@ -291,6 +291,9 @@ def r_kelvin(ctx: Ctx, model):
     Il.const_overrides[(mt, "_LOADED")] = {}
     outs = Il.explore(lambda I: (capi.clear(), I.call_func(ls, [name0], {}, None), dict(capi))[2])
     okl = len(outs) >= 1 and all(o.kind == "ok" for o in outs)
+    if okl and "x" not in outs[0].value:
+        raise AnalysisError("load_std_isotherm no longer builds its curve with scipy.interpolate.interp1d: the extrapolation rule of the "
+                            "thickness curve cannot be read off (construct outside the interpreted fragment)")
     if okl:
         c = outs[0].value
         fv = c.get("kw", {}).get("fill_value")
